@@ -882,6 +882,9 @@ func (c *Conn) maxPayloadSizeForWrite(typ recordType) int {
 		case aead:
 			maxPayload -= ciph.Overhead()
 		case cbcMode:
+			// 明文 + MAC + 填充（至少 1 字节）必须是分组长度的整数倍且不超过剩余空间
+			blockSize := ciph.BlockSize()
+			maxPayload = (maxPayload & ^(blockSize - 1)) - 1
 			maxPayload -= c.out.mac.Size()
 		}
 	}
